@@ -820,3 +820,18 @@ RTP = "refactors/t-callphases/patch.diff"
 mutant("rtp-body-runs-on-caller-chain",
        [(E, "                run_func_body(context, closure, bindings, &stmts)", "                run_func_body(context, { let _ = closure; scopes.clone() }, bindings, &stmts)")],
        [("C04", "R04.3")], base=RTP, note="call phases + the body runs on (a clone of) the caller's chain")
+
+RTI = "refactors/t-indexing/patch.diff"
+CT = "src/eval/container.rs"
+mutant("rti-empty-range-assignment-accepted",
+       [(CT, "    } else if start >= end {", "    } else if start > end {")],
+       [("C11", "R11.4")], base=RTI, note="container module + an empty range is accepted as an assignment target")
+mutant("rti-range-end-one-past",
+       [(CT, "    } else if end > list_len {", "    } else if end > list_len + 1 {")],
+       [("C11", "R11.4")], also=[("C02", "R02.4")], base=RTI, note="container module + a range may end one past the list (panicking write)")
+mutant("rti-read-end-defaults-to-start",
+       [(CT, "    let end = end.unwrap_or(list_len(list));\n\n    match lock_deref!(list).get(start .. end) {", "    let end = end.unwrap_or(start);\n\n    match lock_deref!(list).get(start .. end) {")],
+       [("C11", "R11.5")], base=RTI, note="container module + `xs[a:]` reads an empty range")
+mutant("rti-assign-end-defaults-to-rhs-len",
+       [(B, "        match container::resolve_list_assign_range(list_len, start, end) {", "        match container::resolve_list_assign_range(list_len, start, end.or(Some(rhs_items.len()))) {")],
+       [("C11", "R11.5")], base=RTI, note="container module + an omitted assignment end defaults to the length of the assigned list")
